@@ -74,6 +74,11 @@ check("C10",
       "FloodClause (non-overlap, positive length, coverage, per-label coverage, short gaps closed, long gaps intact, nothing new outside short gaps, input unchanged) is checked by TLC on a transcription "
       "of the pairwise walk with neighbour mutation and on every recorded call of the real flood over chains of up to 4 events, shuffled, pulsetimes 0..3 ticks.",
       "Trusted: as C09.", "TLA+ relational spec + TLC model checking of the algorithm transcription + TLC validation of recorded I/O", "DESIGN.md §6 C10")
+check("C13",
+      "spec/AwEvent.tla states Normalize on limbs (UTC, millisecond floor) and the construct -> JSON -> rebuild behaviour; TLC checks idempotence, zone independence and the floor bound on a grid, and judges every recorded "
+      "construction (aware datetime / ISO with offset / ISO Z; int / float / timedelta durations), schema validation flag and both rebuilds. Quick: 5 microsecond values around every millisecond boundary; thorough: all 10^6 microsecond values.",
+      "Trusted: TLC; limb projection; jsonschema with the repository's schema. The date x offset space is sampled (TLA+ has no floats; the model decides the limb arithmetic only).",
+      "TLA+ spec on limbs + TLC model checking + TLC validation of recorded constructions (exhaustive in the microsecond dimension in the thorough tier)", "DESIGN.md §6 C13")
 check("C14",
       "spec/AwMigration.tla states FirstOpen(profile): the new store has the legacy store's buckets with equal metadata and the same events as a bag of values, nothing for a profile without a legacy file, and the "
       "legacy file is untouched; TLC checks it on small stores. Real legacy peewee databases (unicode ids, data dicts, id gaps, duplicates, > 100 events, both profiles, other profile's file present) are built in a private "
@@ -115,6 +120,11 @@ check("C17",
       "length <= 3 (thorough 4) over a 16-symbol alphabet in 7 contexts; every recorded outcome is judged by TLC.",
       "Trusted: TLC; stage attribution by the innermost traceback frame; 5 s alarm as the termination bound. Exceptions raised inside a built-in's own computation are not judged; a lenient parser may accept malformed text.",
       "TLA+ outcome spec + TLC fault generation + exhaustive short-string enumeration judged by TLC", "DESIGN.md §6 C17")
+check("C20",
+      "spec/AwConfig.tla states Overlay on tagged document trees and the two load behaviours (existing file: Overlay + file untouched; no file: defaults, a file is written, later loads equal the defaults and leave it alone); "
+      "TLC checks Overlay's theorems and that a transcription of _merge equals Overlay on all small document pairs, and judges every recorded load_config_toml call (all pairs of small documents, random deeper ones, comments, type changes).",
+      "Trusted: TLC; tomlkit's parser; the harness' TOML rendering (one value per line).",
+      "TLA+ relational spec + TLC model checking of the algorithm transcription + TLC validation of recorded loads", "DESIGN.md §6 C20")
 
 
 def build():
